@@ -1,1 +1,79 @@
--- property theorems for C10 (stub)
+/- Property C10: loading untrusted bytes or bytecode cannot corrupt memory.  Theorems only. -/
+import JanetModel.Bytecode.VerifySound
+import JanetModel.Gen.VmAccess
+import JanetModel.Unmarsh.ImageWf
+namespace JanetModel.Props.C10
+open JanetModel.Bytecode JanetModel.Gen.VmAccess
+
+/-- REGENERATED OBLIGATION.  The opcode-type table of bytecode.c, the operand uses of every `VM_OP` block of vm.c, the
+    computed-goto table and the masks of the current source are mutually consistent.  A changed `JINT_*` row, a handler
+    that reads a wider / different field, a missing `vm_assert` bound check or a changed mask makes this fail
+    (`Tables.badRows tables` names the opcode). -/
+theorem tables_consistent : tables.consistent = true := by decide +kernel
+
+theorem no_bad_rows : tables.badRows = [] := by decide +kernel
+
+/-- **verify_sound** for the tables of the current source -/
+theorem verify_sound (d : FuncDef) (hw : ∀ w ∈ d.bytecode, w < 4294967296) (hv : verify tables d = 0)
+    (pc : Nat) (hpc : pc < d.bytecode.length) :
+    ∀ idx, (idx = d.bytecode[pc] % tables.dispatchMod ∨ idx = d.bytecode[pc] % tables.breakMod) →
+      ∃ h, tables.lookup[idx]? = some h ∧ HandlerSafe tables d pc d.bytecode[pc] h :=
+  verify_sound_generic tables tables_consistent d hw hv pc hpc
+
+/-- the entry point of an accepted funcdef exists (`pc = func->def->bytecode` on call) -/
+theorem verify_entry (d : FuncDef) (hv : verify tables d = 0) : 0 < d.bytecode.length :=
+  (verify_facts tables d hv).1
+
+/-- non-vacuity: a two-instruction function `ldi 0 7; ret 0` with one slot is accepted, and a wide slot operand is not -/
+example : verify tables { slotcount := 1, arity := 0, vararg := false, nconsts := 0, ndefs := 0, nenvs := 0,
+                          bytecode := [43 + 0 * 256 + 7 * 65536, 3 + 0 * 256] } = 0 := by decide
+example : verify tables { slotcount := 1, arity := 0, vararg := false, nconsts := 0, ndefs := 0, nenvs := 0,
+                          bytecode := [43 + 255 * 256 + 7 * 65536, 3 + 0 * 256] } = 4 := by decide
+
+/-! ### image well-formedness
+
+The full-strength statements (`fiber_image_wf`, `function_image_wf`, `env_untrusted_checked` over the checks of the CURRENT
+source) live in `JanetModel.Unmarsh.Obligations`, which checks/C10.py builds on every run; they hold exactly when
+`Gen.ImageChecks.checks.allOn = true`.  On the pinned tree six of the checks are absent, hence here: the generic theorems
+(any `Checks` with everything present), the `_partial` statement for the baseline, and the three witnesses. -/
+open JanetModel.Unmarsh
+
+theorem fiber_image_wf_of_all_checks (C : Checks) (hC : C.allOn = true) (h : FiberHdr) (frames : List FrameRec)
+    (hacc : acceptFiber C h frames = true) : FiberWf h frames := fiber_image_wf_generic C hC h frames hacc
+
+/-- missing from the baseline: `FiberWf.chain` (entrance / call-pc conjuncts), `FiberWf.resumableHasFrame`,
+    `FiberWf.resumePoint` -/
+theorem fiber_image_wf_partial (h : FiberHdr) (frames : List FrameRec)
+    (hacc : acceptFiber Checks.baseline h frames = true) : FiberWfPartial h frames :=
+  JanetModel.Unmarsh.fiber_image_wf_partial Checks.baseline rfl rfl h frames hacc
+
+theorem function_image_wf_of_all_checks (C : Checks) (hC : C.allOn = true) (len defEnvLen : Nat) (envs : List Int)
+    (hacc : acceptFunction C len defEnvLen envs = true) : len = defEnvLen ∧ ∀ e ∈ envs, -1 ≤ e :=
+  function_image_wf_generic C hC len defEnvLen envs hacc
+
+/-- missing from the baseline: both conjuncts (nothing is checked) -/
+theorem function_image_wf_partial (len defEnvLen : Nat) (envs : List Int) :
+    acceptFunction Checks.baseline len defEnvLen envs = true := by
+  simp [acceptFunction, Checks.baseline]
+
+theorem env_untrusted_checked_of_all_checks (C : Checks) (hC : C.allOn = true) (offset : Nat) (hpos : 0 < offset) :
+    envOffsetStored C offset < 0 ∧ validatedFirst C (envOffsetStored C offset) = true ∧
+    derefsUnvalidated C (envOffsetStored C offset) = false := env_untrusted_checked_generic C hC offset hpos
+
+/-- the baseline accepts images that break the invariant: replayed on the implementation by checks/C10.py -/
+theorem witness_fiber_frame0 : acceptFiber Checks.baseline witnessFrame0 [] = true ∧ ¬ FiberWf witnessFrame0 [] :=
+  fiber_frame0_witness
+theorem witness_function_env_count : acceptFunction Checks.baseline 0 1 [-1] = true ∧ ¬ (0 = 1) :=
+  function_env_count_witness
+theorem witness_def_env_index :
+    acceptFunction Checks.baseline 0 0 [-256] = true ∧ ¬ (∀ e ∈ [(-256 : Int)], -1 ≤ e) := def_env_index_witness
+
+/-- non-vacuity: a one-frame pending fiber suspended at a `signal` instruction is accepted with every check present -/
+example : acceptFiber { stackSetup := true, frameSize := true, pcRange := true, prevAlign := true, statusRange := true,
+                        frame0 := true, entrance := true, callPc := true, resumeOperand := true, fnEnvCount := true,
+                        defEnvIndex := true, envNegOffset := true, envValidBeforeDeref := true }
+    { status := 3, noUseval := false, noSkip := false, frame := 4, stackstart := 10, stacktop := 10, maxstack := 100 }
+    [{ entrance := true, prevframe := 0, pcdiff := 1, slotcount := 2, bclen := 4, atCall := false, aIsSlot := true }] = true := by
+  decide
+
+end JanetModel.Props.C10
